@@ -79,7 +79,7 @@ PROPS = {
         "trusted_base": COMMON_TRUST + [MODELS + "_mm256_min_epu8, _mm256_sub_epi8, _mm_min_epu8, _mm_sub_epi8",
                                         "Verus 0.2026.09.13 + Z3; seam R4 between Kani-proved kernel contracts and Verus stubs"],
         "assumptions": ["NEON/SVE2 engines unverified",
-                        "the two-line runtime dispatchers json::simd::build_semi_index_{standard,simple} (cpuid) are not executed",
+                        "the runtime dispatchers json::simd::build_semi_index_{standard,simple} and the safe AVX2 entry points ARE extracted and proved (cpuid macro -> arbitrary boolean; the SSE2 engine enters as the contract proved in the _sse2 units)",
                                                 "usize is 64 bits"],
     },
     "C07": {
